@@ -97,10 +97,10 @@ def ops_strategy(role):
     burst = st.tuples(st.just("burst"), st.sampled_from([2, 2, 3]), st.sampled_from([5, 40, 300, 700]))
     app = st.tuples(
         st.just("app"),
-        st.sampled_from(["write", "write", "write_fin", "reset", "ping", "key_update", "change_cid", "close", "dgram", "write_big"]),
+        st.sampled_from(["write", "write", "write_fin", "fin_only", "reset", "ping", "key_update", "change_cid", "close", "dgram", "write_big"]),
         st.integers(0, 3),
     )
-    simple = st.sampled_from([("timer",), ("timer",), ("ack",), ("ack",), ("keyupdate",), ("src", 1), ("src", 0), ("dcid", 1), ("dcid", 3), ("dcid", 7), ("dup",), ("replay_old",)] + [("bad_pkt", ph, w) for ph in (0, 1) for w in ("tag", "payload", "pn", "first")])
+    simple = st.sampled_from([("timer",), ("timer",), ("ack",), ("ack",), ("keyupdate",), ("lossy_ack",), ("lossy_ack", "write", "fin_only"), ("lossy_ack", "write_fin"), ("lossy_ack", "write", "reset"), ("lossy_ack", "change_cid"), ("lossy_ack", "ping", "dgram"), ("src", 1), ("src", 0), ("dcid", 1), ("dcid", 3), ("dcid", 7), ("dup",), ("replay_old",)] + [("bad_pkt", ph, w) for ph in (0, 1) for w in ("tag", "payload", "pn", "first")])
     rawd = st.tuples(st.just("raw_dgram"), st.one_of(st.binary(max_size=40), st.sampled_from([b"", b"\x00", b"\x40", b"\xc0\x00\x00\x00\x01", b"\x80\x00\x00\x00\x00\x08" + bytes(8) + b"\x00" + b"\x00\x00\x00\x01"])))
     return st.lists(st.one_of(pkt, pkt, pkt, pkt, burst, app, simple, simple, rawd), min_size=1, max_size=14)
 
@@ -245,6 +245,23 @@ class Driver:
                 self.guard("handle_timer", tk.sut.handle_timer, now=tk.now)
         elif kind == "ack":
             self.guard("receive_datagram(ack)", tk.ack)
+        elif kind == "lossy_ack":
+            # the peer acknowledges only what the SUT sends from now on: whatever it sent before and is still unacknowledged gets declared lost
+            # (packet threshold now, time threshold at the next timer)
+            for what in op[1:]:
+                # ... first the application does something whose frames will be among the lost ones
+                self.app(what, 1)
+                self.exercise()
+            before = {v.pn for v in tk.sut_packets if v.space == "app" and v.pn is not None}
+            for _ in range(4):
+                if self.dead:
+                    break
+                pkt, pn = tk.build_packet(b"\x01")
+                self.guard("receive_datagram", tk.deliver, pkt, self.src())
+                self.exercise()
+            later = [v.pn for v in tk.sut_packets if v.space == "app" and v.pn is not None and v.pn not in before]
+            if later and not self.dead:
+                self.guard("receive_datagram(ack)", tk.ack, later)
         elif kind == "keyupdate":
             tk.key_gen += 1
         elif kind == "src":
@@ -286,7 +303,14 @@ class Driver:
         if st is None:
             st = self._streams = {"ids": [], "fin": set()}
         try:
-            if what in ("write", "write_fin", "write_big"):
+            if what == "fin_only":
+                # the stream ends with an empty write: a STREAM frame that carries the FIN bit and nothing else
+                if st["ids"]:
+                    sid = st["ids"][k % len(st["ids"])]
+                    if sid not in st["fin"]:
+                        sut.send_stream_data(sid, b"", end_stream=True)
+                        st["fin"].add(sid)
+            elif what in ("write", "write_fin", "write_big"):
                 if not st["ids"] or k == 0:
                     st["ids"].append(sut.get_next_available_stream_id(is_unidirectional=bool(k & 1)))
                 sid = st["ids"][k % len(st["ids"])]
